@@ -438,7 +438,49 @@ def oracle_c09(case, reply):
     return []
 
 
-ORACLES = {"C09": oracle_c09, "C02": oracle_c02, "C05": oracle_c05, "C06": oracle_c06, "C07": oracle_c07,
+def oracle_c12(case, reply):
+    """field selection, restated: case = raw `fields` request"""
+    ws = case["raw"]
+    if ws[0] != "fields":
+        return []
+    mode, nf = ws[1], int(ws[2])
+    fs = [(ws[3 + 3 * i][1:], ws[4 + 3 * i], ws[5 + 3 * i] == "1") for i in range(nf)]
+    args = ws[3 + 3 * nf:]
+
+    def pick(a):
+        if a == "?":
+            return "notstring"
+        nm = a[1:]
+        for f in fs:
+            if f[0] == nm:
+                return "prevented" if f[2] else f
+        return "notfield"
+    want = None
+    if mode == "fieldsof" and nf < len(args):
+        want = "err toomany"
+    elif mode == "struct" and args == ["=*"]:
+        sel = [f for f in fs if not f[2]]
+    else:
+        sel = []
+        for a in args:
+            r = pick(a)
+            if isinstance(r, str):
+                want = "err " + r
+                break
+            sel.append(r)
+    if want is None:
+        tys = [f[1] for f in sel]
+        if mode == "struct" and len(set(tys)) != len(tys):
+            want = "err dup"
+        else:
+            want = ("ok " + " ".join("%s:%s" % (f[0], f[1]) for f in sel)).strip()
+    got = reply.split(":")[0] if reply.startswith("err dup") else reply
+    if got != want:
+        return ["fields %s of %s with arguments %s: wire answers %r, the rule says %r" % (mode, fs, args, reply, want)]
+    return []
+
+
+ORACLES = {"C09": oracle_c09, "C12": oracle_c12, "C02": oracle_c02, "C05": oracle_c05, "C06": oracle_c06, "C07": oracle_c07,
            "C08": oracle_c08, "C10": oracle_c10, "C11": oracle_c11}
 
 
